@@ -5,7 +5,7 @@
    primitive the parser uses after the seek; offset-valued results differ by [length pre].  Both the wide and the
    narrow buffer are such shifts of the iterator over the last 187 bytes at offset 0. *)
 From Coq Require Import ZArith List Lia Bool ZifyBool.
-Require Import Base.Bits Base.Iter Gen.Consts Gen.Types Gen.Preds Model.Clock Model.Packet Model.Reader
+Require Import Base.Bits Base.Iter Gen.Consts Gen.Types Gen.Preds Model.Clock Model.Packet Model.Pool Model.Reader Model.Demux
   Proofs.ReaderProofs Proofs.SafeProofs Proofs.DemuxProofs.
 Import ListNotations.
 Open Scope Z_scope.
@@ -508,3 +508,255 @@ Proof.
   split; [rewrite A1, B1, C1; reflexivity|].
   intros Hne. split; [apply A3; exact Hne|]. rewrite B3, C2; [reflexivity|]. rewrite C1. exact Hne.
 Qed.
+
+(* ================= the whole demuxer on a wide stream: packets AND data ================= *)
+
+Definition sized (size : Z) (b : list Z) : Prop := Z.of_nat (length b) = size.
+
+Lemma concat_sized size bufs : Forall (sized size) bufs ->
+  Z.of_nat (length (concat bufs)) = size * Z.of_nat (length bufs).
+Proof. induction 1 as [|b r Hb Hr IH]; cbn [concat length]; [lia|]. rewrite app_length. unfold sized in Hb. lia. Qed.
+
+(* reader r holds n whole size-byte buffers and a short tail; r' holds their 188-byte forms and a short tail *)
+Definition rd_rel (size : Z) (n : nat) (r r' : reader) : Prop :=
+  exists bufs tail tail', length bufs = n /\ reader_ok r /\ reader_ok r' /\
+    r_rest r = concat bufs ++ tail /\ r_rest r' = concat (map narrow bufs) ++ tail' /\
+    Forall (sized size) bufs /\ Z.of_nat (length tail) < size /\ Z.of_nat (length tail') < C_MpegTsPacketSize.
+
+Lemma rd_rel_intro size bufs tail tail' r r' : reader_ok r -> reader_ok r' ->
+  r_rest r = concat bufs ++ tail -> r_rest r' = concat (map narrow bufs) ++ tail' ->
+  Forall (sized size) bufs -> Z.of_nat (length tail) < size -> Z.of_nat (length tail') < C_MpegTsPacketSize ->
+  rd_rel size (length bufs) r r'.
+Proof. intros. exists bufs, tail, tail'. split; [reflexivity|]. do 6 (split; [assumption|]). assumption. Qed.
+
+Lemma read_full_eof r size : reader_ok r -> Z.of_nat (length (r_rest r)) < size ->
+  exists bs e r1, read_full r size = ((bs, Some e), r1) /\ e <> RInjected /\ reader_ok r1 /\ r_rest r1 = [].
+Proof.
+  intros [Hf Hl] Hlt. unfold read_full, r_stop. rewrite Hf. unfold r_len.
+  destruct (size <=? Z.max 0 (r_total r - r_pos r)) eqn:E; [lia|].
+  eexists _, _, _. split; [reflexivity|]. split; [destruct (Z.max 0 (r_total r - r_pos r) =? 0); discriminate|].
+  split.
+  - split; [exact Hf|]. cbn [r_advance r_total r_pos r_rest]. rewrite skipn_length. lia.
+  - cbn [r_advance r_rest]. apply skipn_all2. lia.
+Qed.
+
+Lemma pb_next_sim skip size : C_MpegTsPacketSize <= size -> forall bufs fuel fuel' r r' tail tail',
+  reader_ok r -> reader_ok r' -> r_rest r = concat bufs ++ tail -> r_rest r' = concat (map narrow bufs) ++ tail' ->
+  Forall (sized size) bufs -> Z.of_nat (length tail) < size -> Z.of_nat (length tail') < C_MpegTsPacketSize ->
+  (length bufs < fuel)%nat -> (length bufs < fuel')%nat ->
+  fst (fst (pb_next fuel skip size r)) = fst (fst (pb_next fuel' skip C_MpegTsPacketSize r')) /\
+  exists n2, (n2 <= length bufs)%nat /\
+    (is_ok (fst (fst (pb_next fuel skip size r))) = true -> (n2 < length bufs)%nat) /\
+    rd_rel size n2 (snd (fst (pb_next fuel skip size r))) (snd (fst (pb_next fuel' skip C_MpegTsPacketSize r'))).
+Proof.
+  intros Hs. induction bufs as [|b rest IH]; intros fuel fuel' r r' tail tail' Hok Hok' Hr Hr' Hall Ht Ht' Hf Hf'.
+  - destruct fuel as [|k]; [simpl in Hf; lia|]. destruct fuel' as [|k']; [simpl in Hf'; lia|].
+    cbn [pb_next]. cbn [map concat app] in Hr, Hr'.
+    destruct (read_full_eof r size Hok ltac:(rewrite Hr; exact Ht)) as (bs & e & r1 & E1 & Hne & Hok1 & Hr1).
+    destruct (read_full_eof r' C_MpegTsPacketSize Hok' ltac:(rewrite Hr'; exact Ht')) as (bs' & e' & r1' & E1' & Hne' & Hok1' & Hr1').
+    rewrite E1, E1'.
+    assert (G : rd_rel size 0 r1 r1').
+    { apply (rd_rel_intro size [] [] []); cbn [map concat app length]; auto; try constructor; change C_MpegTsPacketSize with 188 in *; lia. }
+    destruct e, e'; try contradiction; cbn [fst snd]; (split; [reflexivity|]); exists 0%nat;
+      (split; [cbn; lia|]); (split; [discriminate|exact G]).
+  - destruct fuel as [|k]; [simpl in Hf; lia|]. destruct fuel' as [|k']; [simpl in Hf'; lia|].
+    inversion Hall as [|? ? Hb Hrest]; subst.
+    assert (Hw : (188 <= length b)%nat) by (unfold sized in Hb; change C_MpegTsPacketSize with 188 in Hs; lia).
+    cbn [map concat] in Hr, Hr'. rewrite <- app_assoc in Hr, Hr'.
+    destruct (read_full_buf r size b (concat rest ++ tail) Hok Hr Hb) as [H1 [H2 H3]].
+    destruct (read_full_buf r' C_MpegTsPacketSize (narrow b) (concat (map narrow rest) ++ tail') Hok' Hr'
+                ltac:(rewrite narrow_length by exact Hw; reflexivity)) as [H1' [H2' H3']].
+    cbn [pb_next]. rewrite H1, H1'. rewrite <- (parse_packet_narrow skip b Hw).
+    assert (G : rd_rel size (length rest) (r_advance r size) (r_advance r' C_MpegTsPacketSize)).
+    { apply (rd_rel_intro size rest tail tail'); assumption. }
+    destruct (run_iter (parse_packet skip) b) as [p|c|].
+    + cbn [fst snd]. split; [reflexivity|]. exists (length rest). cbn [length]. split; [lia|]. split; [intros _; lia|exact G].
+    + destruct (c =? E_skipped).
+      * specialize (IH k k' _ _ tail tail' H2 H2' H3 H3' Hrest Ht Ht' ltac:(simpl in Hf; lia) ltac:(simpl in Hf'; lia)).
+        destruct (pb_next k skip size (r_advance r size)) as [[x r2] l],
+                 (pb_next k' skip C_MpegTsPacketSize (r_advance r' C_MpegTsPacketSize)) as [[x' r2'] l'].
+        cbn [fst snd] in *. destruct IH as [I1 (n2 & I2 & I3 & I4)]. split; [exact I1|].
+        exists n2. split; [cbn [length]; lia|]. split; [intros Hx; specialize (I3 Hx); cbn [length]; lia|exact I4].
+      * cbn [fst snd]. split; [reflexivity|]. exists (length rest). cbn [length]. split; [lia|]. split; [intros _; lia|exact G].
+    + cbn [fst snd]. split; [reflexivity|]. exists (length rest). cbn [length]. split; [lia|]. split; [intros _; lia|exact G].
+Qed.
+
+Lemma rd_rel_fuel size n r r' : C_MpegTsPacketSize <= size -> rd_rel size n r r' ->
+  (n < packets_left r size)%nat /\ (n < packets_left r' C_MpegTsPacketSize)%nat /\
+  (n + 1 < S (S (Z.to_nat ((r_len r - r_pos r) / 188))))%nat /\ (n + 1 < S (S (Z.to_nat ((r_len r' - r_pos r') / 188))))%nat.
+Proof.
+  intros Hs (bufs & tail & tail' & Hn & [_ Hl] & [_ Hl'] & Hr & Hr' & Hall & Ht & Ht').
+  change C_MpegTsPacketSize with 188 in *.
+  assert (Hall' : Forall (sized 188) (map narrow bufs)).
+  { clear -Hall Hs. induction Hall as [|b r Hb Hr IH]; constructor; auto. unfold sized in *. rewrite narrow_length; lia. }
+  pose proof (concat_sized size bufs Hall) as C. pose proof (concat_sized 188 _ Hall') as C'. rewrite map_length in C'.
+  rewrite Hr, app_length in Hl. rewrite Hr', app_length in Hl'. unfold packets_left, r_len. rewrite Hn in *.
+  set (N := Z.of_nat n) in *. set (t := Z.of_nat (length tail)) in *. set (t' := Z.of_nat (length tail')) in *.
+  assert (E1 : (r_total r - r_pos r) / Z.max 1 size = N).
+  { symmetry. apply (Z.div_unique_pos _ _ N t); lia. }
+  assert (E2 : (r_total r' - r_pos r') / Z.max 1 188 = N).
+  { symmetry. apply (Z.div_unique_pos _ _ N t'); lia. }
+  assert (E3 : N <= (r_total r - r_pos r) / 188).
+  { apply Z.div_le_lower_bound; nia. }
+  assert (E4 : (r_total r' - r_pos r') / 188 = N).
+  { symmetry. apply (Z.div_unique_pos _ _ N t'); lia. }
+  rewrite E1, E2, E4. unfold N in *. repeat split; lia.
+Qed.
+
+(* the two demuxer states: same data buffer, pool and program map; packet buffers of size / 188 (or none yet, with
+   these sizes as the option); readers as above.  The ghost logs are not constrained. *)
+Definition wrel (size : Z) (n : nat) (s s' : dstate) : Prop :=
+  d_buffer s' = d_buffer s /\ d_pool s' = d_pool s /\ d_pm s' = d_pm s /\
+  ((d_pb s = None /\ d_pb s' = None /\ d_opt_size s = size /\ d_opt_size s' = C_MpegTsPacketSize) \/
+   (d_pb s = Some (mk_pbuf size) /\ d_pb s' = Some (mk_pbuf C_MpegTsPacketSize))) /\
+  rd_rel size n (d_reader s) (d_reader s').
+
+Lemma wrel_set_pool size n s s' pl : wrel size n s s' -> wrel size n (set_pool s pl) (set_pool s' pl).
+Proof. intros (Hb & Hpl & Hpm & Hpb & Hr). unfold wrel, set_pool. cbn. auto 10. Qed.
+
+Lemma wrel_log_group size n s s' g g' : wrel size n s s' -> wrel size n (log_group s g) (log_group s' g').
+Proof. intros (Hb & Hpl & Hpm & Hpb & Hr). unfold wrel, log_group. cbn. auto 10. Qed.
+
+Lemma update_data_wide size n s s' ds : wrel size n s s' ->
+  fst (update_data s ds) = fst (update_data s' ds) /\ wrel size n (snd (update_data s ds)) (snd (update_data s' ds)).
+Proof.
+  intros H. destruct ds as [|d rest]; [split; [reflexivity|exact H]|].
+  destruct H as (Hb & Hpl & Hpm & Hpb & Hr). cbn [update_data fst snd]. split; [reflexivity|].
+  unfold wrel. cbn. rewrite Hb, Hpm. auto 10.
+Qed.
+
+Section WideDemux.
+Variables (P : dparsers) (prs : option custom_parser) (skip : Packet -> bool) (size : Z).
+Hypothesis Hsize : C_MpegTsPacketSize <= size.
+
+Lemma packet_buffer_next_wide n r r' : rd_rel size n r r' ->
+  fst (fst (packet_buffer_next skip (mk_pbuf size) r)) = fst (fst (packet_buffer_next skip (mk_pbuf C_MpegTsPacketSize) r')) /\
+  exists n2, (n2 <= n)%nat /\
+    (is_ok (fst (fst (packet_buffer_next skip (mk_pbuf size) r))) = true -> (n2 < n)%nat) /\
+    rd_rel size n2 (snd (fst (packet_buffer_next skip (mk_pbuf size) r)))
+                   (snd (fst (packet_buffer_next skip (mk_pbuf C_MpegTsPacketSize) r'))).
+Proof.
+  intros H. destruct (rd_rel_fuel size n r r' Hsize H) as (F1 & F2 & _).
+  destruct H as (bufs & tail & tail' & Hn & Hok & Hok' & Hr & Hr' & Hall & Ht & Ht'). subst n.
+  unfold packet_buffer_next. cbn [pb_size]. change C_MpegTsPacketSize with 188 in *.
+  destruct (size <? 0) eqn:E1; [lia|]. destruct (size =? 0) eqn:E2; [lia|].
+  change (188 <? 0) with false. change (188 =? 0) with false. cbn iota.
+  exact (pb_next_sim skip size Hsize bufs _ _ r r' tail tail' Hok Hok' Hr Hr' Hall Ht Ht' F1 F2).
+Qed.
+
+Lemma next_packet_wide n s s' : wrel size n s s' ->
+  fst (next_packet skip s) = fst (next_packet skip s') /\
+  exists n2, (n2 <= n)%nat /\ (is_ok (fst (next_packet skip s)) = true -> (n2 < n)%nat) /\
+    wrel size n2 (snd (next_packet skip s)) (snd (next_packet skip s')).
+Proof.
+  intros (Hb & Hpl & Hpm & Hpb & Hr).
+  destruct (packet_buffer_next_wide n _ _ Hr) as [B1 (n2 & B2 & B3 & B4)].
+  unfold next_packet. destruct Hpb as [(E1 & E2 & E3 & E4)|(E1 & E2)].
+  - rewrite E1, E2, E3, E4. unfold new_packet_buffer. change C_MpegTsPacketSize with 188 in *.
+    destruct (size =? 0) eqn:Ez; [lia|]. change (188 =? 0) with false. cbn iota.
+    cbn [set_pb set_reader d_reader].
+    destruct (packet_buffer_next skip (mk_pbuf size) (d_reader s)) as [[rp r1] l],
+             (packet_buffer_next skip (mk_pbuf 188) (d_reader s')) as [[rp' r1'] l']. cbn [fst snd] in *.
+    split; [exact B1|]. exists n2. split; [exact B2|]. split; [exact B3|].
+    unfold wrel, log_consulted, set_reader. cbn. repeat split; auto.
+  - rewrite E1, E2.
+    destruct (packet_buffer_next skip (mk_pbuf size) (d_reader s)) as [[rp r1] l],
+             (packet_buffer_next skip (mk_pbuf C_MpegTsPacketSize) (d_reader s')) as [[rp' r1'] l']. cbn [fst snd] in *.
+    split; [exact B1|]. exists n2. split; [exact B2|]. split; [exact B3|].
+    unfold wrel, log_consulted, set_reader. cbn. repeat split; auto.
+Qed.
+
+Lemma drain_wide n fuel : forall s s', wrel size n s s' ->
+  fst (drain P prs fuel s) = fst (drain P prs fuel s') /\ wrel size n (snd (drain P prs fuel s)) (snd (drain P prs fuel s')).
+Proof.
+  induction fuel as [|k IH]; intros s s' H; [split; [reflexivity|exact H]|].
+  cbn [drain]. assert (Hpl : d_pool s' = d_pool s) by apply H. rewrite Hpl.
+  destruct (pool_dump (d_pool s)) as [pl1 ps].
+  pose proof (wrel_set_pool size n s s' pl1 H) as H0.
+  destruct ps as [|p0 t]; [split; [reflexivity|exact H0]|].
+  pose proof (wrel_log_group size n _ _ (p0 :: t) (p0 :: t) H0) as H1.
+  set (s1 := log_group (set_pool s pl1) (p0 :: t)) in *.
+  set (s1' := log_group (set_pool s' pl1) (p0 :: t)) in *.
+  assert (Hpm : d_pm s1' = d_pm s1) by apply H1. rewrite Hpm.
+  destruct (parse_data P prs (d_pm s1) (p0 :: t)) as [ds|c|].
+  - destruct (update_data_wide size n s1 s1' ds H1) as [U1 U2].
+    destruct (update_data s1 ds) as [[dd|] s2], (update_data s1' ds) as [[dd'|] s2']; cbn [fst snd] in *; try discriminate.
+    + inversion U1; subst. split; [reflexivity|exact U2].
+    + apply IH; assumption.
+  - apply IH; assumption.
+  - split; [reflexivity|exact H1].
+Qed.
+
+Lemma loop_wide fuel : forall fuel' n s s', wrel size n s s' -> (n + 1 < fuel)%nat -> (n + 1 < fuel')%nat ->
+  fst (next_data_loop P prs skip fuel s) = fst (next_data_loop P prs skip fuel' s') /\
+  exists n2, (n2 <= n)%nat /\ wrel size n2 (snd (next_data_loop P prs skip fuel s)) (snd (next_data_loop P prs skip fuel' s')).
+Proof.
+  induction fuel as [|k IH]; intros fuel' n s s' H Hf Hf'; [lia|]. destruct fuel' as [|k']; [lia|].
+  cbn [next_data_loop].
+  destruct (next_packet_wide n s s' H) as [N1 (n2 & N2 & N3 & N4)].
+  destruct (next_packet skip s) as [rp s1], (next_packet skip s') as [rp' s1']. cbn [fst snd] in *. subst rp'.
+  assert (Hpl : d_pool s1' = d_pool s1) by apply N4. assert (Hpm : d_pm s1' = d_pm s1) by apply N4.
+  destruct rp as [p|c|].
+  - specialize (N3 eq_refl). rewrite Hpl, Hpm.
+    destruct (pool_add (d_pm s1) (d_pool s1) p) as [pl1 ps].
+    pose proof (wrel_set_pool size n2 s1 s1' pl1 N4) as H0.
+    destruct ps as [|p0 t].
+    { destruct (IH k' n2 _ _ H0 ltac:(lia) ltac:(lia)) as [I1 (n3 & I2 & I3)]. split; [exact I1|]. exists n3. split; [lia|exact I3]. }
+    pose proof (wrel_log_group size n2 _ _ (p0 :: t) (p0 :: t) H0) as H1.
+    set (s2 := log_group (set_pool s1 pl1) (p0 :: t)) in *.
+    set (s2' := log_group (set_pool s1' pl1) (p0 :: t)) in *.
+    assert (Hpm2 : d_pm s2' = d_pm s2) by apply H1. rewrite Hpm2.
+    destruct (parse_data P prs (d_pm s2) (p0 :: t)) as [ds|c|]; try (split; [reflexivity|exists n2; split; [lia|exact H1]]).
+    destruct (update_data_wide size n2 s2 s2' ds H1) as [U1 U2].
+    destruct (update_data s2 ds) as [[dd|] s3], (update_data s2' ds) as [[dd'|] s3']; cbn [fst snd] in *; try discriminate.
+    + inversion U1; subst. split; [reflexivity|]. exists n2. split; [lia|exact U2].
+    + destruct (IH k' n2 _ _ U2 ltac:(lia) ltac:(lia)) as [I1 (n3 & I2 & I3)]. split; [exact I1|]. exists n3. split; [lia|exact I3].
+  - destruct (c =? E_nomore).
+    + rewrite Hpl. destruct (drain_wide n2 (S (length (d_pool s1))) s1 s1' N4) as [D1 D2]. split; [exact D1|]. exists n2. split; [lia|exact D2].
+    + split; [reflexivity|]. exists n2. split; [lia|exact N4].
+  - split; [reflexivity|]. exists n2. split; [lia|exact N4].
+Qed.
+
+Lemma call_wide c n s s' : wrel size n s s' ->
+  fst (call P prs skip c s) = fst (call P prs skip c s') /\
+  exists n2, wrel size n2 (snd (call P prs skip c s)) (snd (call P prs skip c s')).
+Proof.
+  intros H. destruct c; cbn [call].
+  - destruct (next_packet_wide n s s' H) as [N1 (n2 & _ & _ & N4)].
+    destruct (next_packet skip s) as [rp s1], (next_packet skip s') as [rp' s1']. cbn [fst snd] in *. subst rp'.
+    split; [reflexivity|]. exists n2. exact N4.
+  - unfold next_data. assert (Hb : d_buffer s' = d_buffer s) by apply H. rewrite Hb.
+    destruct (d_buffer s) as [|dd rest] eqn:E.
+    + assert (Hr : rd_rel size n (d_reader s) (d_reader s')) by apply H.
+      destruct (rd_rel_fuel size n _ _ Hsize Hr) as (_ & _ & F3 & F4).
+      destruct (loop_wide (nd_fuel s) (nd_fuel s') n s s' H F3 F4) as [L1 (n2 & _ & L3)].
+      destruct (next_data_loop P prs skip (nd_fuel s) s) as [rp s1], (next_data_loop P prs skip (nd_fuel s') s') as [rp' s1'].
+      cbn [fst snd] in *. subst rp'. split; [reflexivity|]. exists n2. exact L3.
+    + cbn [fst snd]. split; [reflexivity|]. exists n.
+      destruct H as (_ & Hpl & Hpm & Hpb & Hr). unfold wrel. cbn. auto 10.
+Qed.
+
+Lemma calls_wide_rel cs : forall n s s', wrel size n s s' -> calls P prs skip cs s = calls P prs skip cs s'.
+Proof.
+  induction cs as [|c r IH]; intros n s s' H; [reflexivity|].
+  cbn [calls]. destruct (call_wide c n s s' H) as [C1 (n2 & C2)].
+  destruct (call P prs skip c s) as [x s1], (call P prs skip c s') as [x' s1']. cbn [fst snd] in *. subst x'.
+  f_equal. exact (IH n2 _ _ C2).
+Qed.
+
+(* C08 (e), whole demuxer: a stream of [size]-byte packets (size = 188+k given explicitly, any k), followed by any
+   short tail, read through any kind of reader, gives for EVERY sequence of NextPacket / NextData calls -- with any
+   unit parsers, packets parser and skipper -- exactly the results (packets, data, errors) of the stream of the
+   188-byte forms read with packet size 188 *)
+Theorem calls_wide cs bufs tail tail' k k' : Forall (sized size) bufs ->
+  Z.of_nat (length tail) < size -> Z.of_nat (length tail') < C_MpegTsPacketSize ->
+  calls P prs skip cs (init_dstate (new_reader (concat bufs ++ tail) None k) size) =
+  calls P prs skip cs (init_dstate (new_reader (concat (map narrow bufs) ++ tail') None k') C_MpegTsPacketSize).
+Proof.
+  intros Hall Ht Ht'. apply (calls_wide_rel cs (length bufs)).
+  unfold wrel, init_dstate. cbn [d_buffer d_pool d_pm d_pb d_opt_size d_reader].
+  repeat split; auto.
+  apply (rd_rel_intro size bufs tail tail'); auto; unfold reader_ok, new_reader; cbn [r_fault r_total r_pos r_rest]; split; auto; lia.
+Qed.
+
+End WideDemux.
